@@ -151,6 +151,10 @@ def run(ctx):
             # a string literal that spans a line break inside a list (the newline is part of the string), parentheses inside it
             k = rng.randrange(len(texts_) + 1)
             texts_ = texts_[:k] + ['(define str%d "a(b %s\n c)" )' % (rng.randint(1, 3), rng.choice(["", ")", "((", ";x"])), "(list 1 str%d)" % rng.randint(1, 3)] + texts_[k:]
+        if rng.random() < 0.35:
+            # values whose echo is empty or ends in white space: the echo is the value's text, all of it
+            k = rng.randrange(len(texts_) + 1)
+            texts_ = texts_[:k] + [rng.choice(['"tab\t"', '"ends in blanks  "', '" "', '""', "'||", '(list "a " "")', '(vector " ")', "(car (list #\\  1))"])] + texts_[k:]
         if rng.random() < 0.4:
             # a form that is rejected when it is parsed (it lexes, so the completeness test is not concerned)
             k = rng.randrange(len(texts_) + 1)
